@@ -57,6 +57,11 @@ def one_mutant(pid, mut):
             fh.write(new_src)
         rc, out = run_check(pid, tmp)
         want = mut.get('expect_rule')
+        if mut.get('expect') == 'silent':
+            # behaviour-preserving refactor: the check may pass or decline (exit 2) but must never alarm
+            if rc == 1 or 'VIOLATION property=' in out:
+                return ('FALSE-ALARM', out[-1500:])
+            return ('CAUGHT', '')
         if rc != 1:
             return ('MISSED', f'exit {rc}\n' + out[-1500:])
         if 'VIOLATION property=' + pid not in out:
@@ -100,7 +105,11 @@ def main(argv):
                 print(f'{pid} clean tree: exit 0')
         for pid, mut, fut in futs:
             status, msg = fut.result()
+            if status == 'CAUGHT' and mut.get('expect') == 'silent':
+                status = 'SILENT-OK'
             print(f'{pid} {mut["name"]}: {status}' + (f' (expects {mut.get("expect_rule")})' if status == 'CAUGHT' else ''))
+            if status == 'SILENT-OK':
+                continue
             if status != 'CAUGHT':
                 bad += 1
                 print('    ' + msg.replace('\n', '\n    '))
